@@ -84,14 +84,15 @@ def S_from_exp(e):
     return np.array([2.0 ** int(x) for x in e], dtype=np.float64)
 
 
-def bond_leg(chinfo, charges, qconj, cons):
+def bond_leg(chinfo, charges, qconj, cons, bunch=False):
     from tenpy.linalg import np_conserved as npc
     if cons == 'none':
         return npc.LegCharge.from_trivial(len(charges), chinfo, qconj)
-    return npc.LegCharge.from_qflat(chinfo, [[int(q)] for q in charges], qconj)
+    leg = npc.LegCharge.from_qflat(chinfo, [[int(q)] for q in charges], qconj)
+    return leg.bunch()[1] if bunch else leg
 
 
-def npc_B(site, Bstd, qL, qR, cons, dtype):
+def npc_B(site, Bstd, qL, qR, cons, dtype, bunch=False):
     """npc B tensor (labels p, vL, vR) from a dense array in the standard local basis."""
     from tenpy.linalg import np_conserved as npc
     m = std_to_impl(site)
@@ -99,11 +100,11 @@ def npc_B(site, Bstd, qL, qR, cons, dtype):
     for s in range(Bstd.shape[0]):
         Bimpl[m[s]] = Bstd[s].real if np.dtype(dtype).kind != 'c' else Bstd[s]
     ci = site.leg.chinfo
-    legs = [site.leg, bond_leg(ci, qL, +1, cons), bond_leg(ci, qR, -1, cons)]
+    legs = [site.leg, bond_leg(ci, qL, +1, cons, bunch), bond_leg(ci, qR, -1, cons, bunch)]
     return npc.Array.from_ndarray(Bimpl, legs, dtype=dtype, labels=['p', 'vL', 'vR'], raise_wrong_sector=True)
 
 
-def build_mps(rec, cls=None):
+def build_mps(rec, cls=None, bunch=False):
     """rec: dict with keys bc, kinds, cons, form (list), Sx (list of L+1 exponent lists), B (list of
     B_i[s][a][b]), nrm (int), qb (list of L+1 charge lists; ignored for cons none).
     Uses the plain MPS constructor (no canonicalization)."""
@@ -117,7 +118,7 @@ def build_mps(rec, cls=None):
     is_complex = any(np.any(b.imag != 0) for b in Bs_std)
     dtype = np.complex128 if is_complex else np.float64
     qb = rec.get('qb') or [[0] * Bs_std[0].shape[1]] + [[0] * b.shape[2] for b in Bs_std]
-    Bs = [npc_B(sites[i], Bs_std[i], qb[i], qb[i + 1], cons, dtype) for i in range(L)]
+    Bs = [npc_B(sites[i], Bs_std[i], qb[i], qb[i + 1], cons, dtype, bunch) for i in range(L)]
     SVs = [S_from_exp(e) for e in rec['Sx']]
     with warnings.catch_warnings():
         warnings.simplefilter('ignore')
@@ -523,7 +524,7 @@ def h_singlets(rp, l, o):
 
 def h_covering(rp, l, o):
     from tenpy.networks.mps import MPS
-    locs = [build_mps(rep_to_rec(r, 1)) for r in l['locals']]
+    locs = [build_mps(rep_to_rec(r, 1), bunch=True) for r in l['locals']]
     rp.bc = 'finite'
     rp.psi = quiet(MPS.from_product_mps_covering, locs, [tuple(m) for m in l['imap']], bc='finite', unit_cell_width=l['n'])
     srt = all(list(m) == sorted(m) for m in l['imap'])
